@@ -51,6 +51,7 @@ Verdict(e) ==
     [] c.op = "clamp" -> R(IF o.v = (IF c.n < c.lo THEN c.lo ELSE IF c.n > c.hi THEN c.hi ELSE c.n) THEN "ok" ELSE "clamp_result_not_the_nearest_value_of_the_interval")
     [] c.op = "nearint" -> (LET v == NearIntOK(c.n, 1024, c.tol[1], c.tol[2], o.mi, o.ai) IN IF v # "ok" THEN R(v) ELSE D(o.mi = MaybeIntModel(c.n, 1024, c.tol[1], c.tol[2]), "maybe_int_differs_from_model"))
     [] c.op = "snapscale" -> R(SnapScaleOK(c.small, c.n, 1024, c.tol[1], c.tol[2], o))
+    [] c.op = "snapfine" -> R(SnapFineOK(c, o))
     [] c.op = "align" -> R(First([a \in 1..17 |-> AlignOK(c.x, a, o.dn[a], o.up[a])] \o <<Pow2OK(c.x, o.p2up, o.p2dn)>>))
     [] c.op = "snapgrid" -> (LET v == SnapGridOK(128, c.x0, c.x0 + c.sp, c.r, c.o, c.tol[1], c.tol[2], o.out) IN
                               IF v # "ok" THEN R(v) ELSE D(o.out = SnapGridModel(128, c.x0, c.x0 + c.sp, c.r, c.o, c.tol[1], c.tol[2]), "snap_grid_differs_from_model"))
